@@ -23,7 +23,9 @@ def _run(ctx):
             "cluster_recovered": cstats.get("recovered", 0), "cluster_quiet": cstats.get("quiet", 0),
             "cluster_crashes": cstats.get("crashes", 0), "cluster_forwards": cstats.get("forwards", 0),
             # feedback deliveries whose mark reached the threshold while a newer operation was stored
-            "cluster_stalefb_hits": cstats.get("stalefb_hits", 0)}
+            "cluster_stalefb_hits": cstats.get("stalefb_hits", 0),
+            # start-up recoveries in which a peer held an operation the node had to refuse, or the peers disagreed
+            "cluster_recovery_contested": cstats.get("recovery_contested", 0)}
     if any(v == 0 for v in need.values()):
         raise vlib.Inconclusive("vacuous run: %s" % need)
     cov = {
@@ -51,10 +53,11 @@ def _run(ctx):
     return ctx.finish("model_checking", cov, [
         "membership is a static real cluster store (cluster.Cluster{Store}), transports are freighter/mock networks; the "
         "periodic emitter (1000 h interval) is replaced by the harness scheduler calling the same handlers",
-        "masked schedules do not step into the named windows (VolatileStore, RecoveryUnchecked, MultiLease, "
-        "PrematureRemoval; StaleFeedback was repaired in store.go and is stepped into freely); each window except PrematureRemoval (inherent to SIR removal with random peers) is replayed as a "
+        "masked schedules do not step into the named windows (VolatileStore, MultiLease, PrematureRemoval; "
+        "StaleFeedback and RecoveryUnchecked were repaired in store.go / recovery.go and are stepped into freely); each window except PrematureRemoval (inherent to SIR removal with random peers) is replayed as a "
         "directed script and reported under a stable signature",
-        "start-up recovery of several peers is modelled per peer (high-water mark loaded at start or after another peer's commit)",
+        "start-up recovery: peers in turn in any order, high-water mark loaded once at start, supersedes rule (as repaired); gossip is "
+        "not delivered to a node while its Open is running",
         "TLC/SANY, Go toolchain, memkv (pebble in-memory) trusted",
     ])
 
